@@ -302,8 +302,11 @@ func TestRealClientPlans(t *testing.T) {
 	checkGet(t, ch, []string{"trace_action_from"}, nil, nil, 2, 3)
 	checkGet(t, ch, []string{"trace_action_from", "trace_action_to", "trace_action_value", "trace_action_call_type", "tx_input"}, nil, nil, 2, 3)
 	checkGet(t, ch, []string{"trace_action_value", "block_time"}, nil, nil, 3, 2)
-	if _, err := client().Get(bg, url1, glf.New([]string{"trace_action_from"}, nil, nil), 1, 1); err == nil || !strings.Contains(err.Error(), "empty result") {
-		t.Errorf("trace_block of a block without traces must be [] (client: empty result), got %v", err)
+	// trace_block of a block without traces is []: the client either rejects it ("empty result", the
+	// behaviour before fix C07-07) or returns the block with nothing attached (after it)
+	if bs, err := client().Get(bg, url1, glf.New([]string{"trace_action_from"}, nil, nil), 1, 1); err != nil && !strings.Contains(err.Error(), "empty result") ||
+		err == nil && (len(bs) != 1 || len(bs[0].Txs) != 0) {
+		t.Errorf("trace_block of a block without traces must be []: got %d blocks, %v", len(bs), err)
 	}
 
 	c := client()
